@@ -724,3 +724,19 @@ Proof.
   - apply (linked_map_set_header H (thash H t0) (t0 :: r)). exact Lk.
 Qed.
 End Rebuild.
+
+(** an accepted list that starts with any member of a chained group is that group:
+    reordering, dropping, duplicating, inserting or substituting members is detected *)
+Theorem member_first_detected (H : list N -> list N) (Hinj : forall a b, H a = H b -> a = b) e L G g :
+  chained H G ->
+  Forall (fun t => wf_txb t = true) G -> Forall (fun t => wf_txb t = true) L ->
+  In g G -> unsig (hd dtx L) = unsig g ->
+  check_group H e L = EOk ->
+  map unsig L = map unsig G.
+Proof.
+  intros CG WG WL Hg El Ck.
+  apply (same_header_same_content H Hinj e); try assumption.
+  apply unsig_fields in El. destruct El as (_&_&_&_&_&_&_&Eh&_&_). rewrite Eh.
+  destruct G as [|g0 G']; [contradiction|]. cbn [hd].
+  destruct CG as (_ & Fa & _). rewrite Forall_forall in Fa. apply Fa. exact Hg.
+Qed.
